@@ -1,9 +1,13 @@
 import CnbVerif.Props.C16
 #print axioms CnbVerif.C16.detached_containers_force_removed
+#print axioms CnbVerif.C16.every_container_removed_exactly_once_after_last_use
 #print axioms CnbVerif.C16.image_and_volumes_removed_once_after_last_use
 #print axioms CnbVerif.C16.only_generated_names_removed
 #print axioms CnbVerif.C16.no_temp_dir_left
 #print axioms CnbVerif.C16.single_injection_never_aborts
 #print axioms CnbVerif.C16.working_docker_rm_never_aborts
 #print axioms CnbVerif.C16.cleanup_under_single_injection
+#print axioms CnbVerif.C16.cleanup_whenever_docker_rm_works
+#print axioms CnbVerif.C16.fault_script_sparing_rm
+#print axioms CnbVerif.C16.cleanup_under_fault_script
 #print axioms CnbVerif.C16.double_fault_aborts
